@@ -214,6 +214,34 @@ func c35(r *core.Report, p *core.Prog, thorough bool) {
 				}
 			}
 			r.Check(rankCmp, "C35.one-per-rank", "AddNotarizedBlock:same-rank-test", p.Pos(anb.Pos()), "blocks are matched by RoundRank")
+			// the removal drops exactly the element at the matched index: the delete-at-index
+			// idiom  S = append(S[:i], S[i+1:]...)  with i the index whose rank matched
+			delOK, why := false, "the removal is not append(list[:found], list[found+1:]...)"
+			if ac, ok := removal.Val.(*ssa.Call); ok && core.CalleeName(ac.Common()) == "builtin.append" && len(ac.Call.Args) == 2 {
+				lo, ok1 := ac.Call.Args[0].(*ssa.Slice)
+				hi, ok2 := ac.Call.Args[1].(*ssa.Slice)
+				if ok1 && ok2 && lo.Low == nil && lo.High != nil && hi.High == nil && hi.Low != nil {
+					sameList := strings.HasSuffix(describe(lo.X), ".notarizedBlocks") && strings.HasSuffix(describe(hi.X), ".notarizedBlocks")
+					plus1 := false
+					if bo, ok := hi.Low.(*ssa.BinOp); ok && bo.Op == token.ADD && bo.X == lo.High {
+						if k, isK := core.ConstInt(bo.Y); isK && k == 1 {
+							plus1 = true
+						}
+					}
+					// the index is the loop index stored where the ranks matched (phi of -1 and the range index)
+					idxOK := false
+					if ph, ok := lo.High.(*ssa.Phi); ok {
+						for _, e := range ph.Edges {
+							if k, isK := core.ConstInt(e); isK && k == -1 {
+								idxOK = true
+							}
+						}
+					}
+					delOK = sameList && plus1 && idxOK
+					why = fmt.Sprintf("same-list=%v high-part-starts-at-found+1=%v index-from-the-rank-match=%v", sameList, plus1, idxOK)
+				}
+			}
+			r.Check(delOK, "C35.one-per-rank", "AddNotarizedBlock:removes-the-matched-element", posOf(p, removal.Instr), "exactly the block whose rank matched leaves the list (template: delete-at-index by append of the two sub-slices); "+why)
 			// final value: sorted by weight descending
 			sorted := false
 			for _, cs := range core.CallsIn(anb, false, func(c *ssa.CallCommon) bool { return strings.HasPrefix(core.CalleeName(c), "sort.") }) {
